@@ -1064,6 +1064,10 @@ func (fr *Frame) recordFollows(name string, sp *FuncSpec, res Val, guard string,
 	}
 	match := func(f string) bool { return f == name || strings.HasSuffix(name, "."+f) }
 	for _, c := range fc.spec.Follows {
+		if match(c.Args[0]) {
+			// (also recorded at static call sites, where inlined callees are seen; a second flag for the same call is harmless)
+			fc.folB[c.Ord] = append(fc.folB[c.Ord], propFlag{block: fc.curBlock, seq: fc.seq, cond: guard, callee: name})
+		}
 		if match(c.Args[1]) {
 			env := fr.specEnv(st, nil, nil)
 			if sp != nil {
